@@ -521,3 +521,103 @@ Proof.
   - rewrite E2 in Hf. inversion Hf; subst. apply fil_scale. cbn; auto.
   - rewrite E3 in Hf. inversion Hf; subst. apply fil_scale. cbn; auto.
 Qed.
+
+(* ================================================================ internal registers as dimensions and as units *)
+
+Lemma expand1_register : forall lvl k e, lvl < 0 -> is_param k = true -> expand1 lvl (Cs k e) = Some (Cs k true).
+Proof.
+  intros lvl k e Hl Hp. assert (Hlt : (0 <=? lvl) = false) by (apply Z.leb_gt; lia).
+  destruct k; try discriminate; destruct e; cbn [expand1 is_param andb]; rewrite ?Hlt; reflexivity.
+Qed.
+
+(* <optional signs><internal dimen>: a dimen register, or a count / glue register coerced *)
+Theorem read_dimen_register : forall U sr k e rest lvl0,
+  lvl0 <= 0 -> is_param k = true ->
+  read_dimen U (print_signs sr ++ Cs k e :: rest) lvl0 = Ok (inject_Z (sign_value sr) * as_dimen k)%Q rest lvl0.
+Proof.
+  intros U sr k e rest lvl0 Hl Hp. unfold read_dimen.
+  pose proof (expand1_register (lvl0 - 1) k e ltac:(lia) Hp) as He.
+  rewrite (read_signs_print (lvl0 - 1) sr (Cs k e) (Cs k true) rest He I).
+  rewrite (expand1_register (lvl0 - 1) k true ltac:(lia) Hp), Hp.
+  replace (lvl0 - 1 + 1) with lvl0 by lia. reflexivity.
+Qed.
+
+Lemma read_unit_register : forall U n k e rest lvl0, lvl0 <= 0 -> is_param k = true ->
+  read_unit_of_measure U (blanks n ++ Cs k e :: rest) lvl0 = Ok (as_dimen k) rest lvl0.
+Proof.
+  intros U n k e rest lvl0 Hl Hp. unfold read_unit_of_measure. rewrite ros_blanks. cbn [read_optional_spaces].
+  rewrite (expand1_register (lvl0 - 1) k e ltac:(lia) Hp), Hp. replace (lvl0 - 1 + 1) with lvl0 by lia. reflexivity.
+Qed.
+
+(* what follows a decimal factor: blanks, then the register *)
+Lemma register_tail : forall lvl n k e rest, lvl < 0 -> is_param k = true ->
+  ends_run lvl tex_dec (blanks n ++ Cs k e :: rest) /\ not_point_next lvl (blanks n ++ Cs k e :: rest) /\
+  (exists n' e', peek lvl (blanks n ++ Cs k e :: rest) = blanks n' ++ Cs k e' :: rest) /\
+  (exists n' e', seq_rest lvl true (blanks n ++ Cs k e :: rest) = blanks n' ++ Cs k e' :: rest).
+Proof.
+  intros lvl n k e rest Hl Hp. pose proof (expand1_register lvl k e Hl Hp) as He.
+  assert (Hns : stops_unexpanded (Cs k e) = false).
+  { destruct k; try discriminate; destruct e; reflexivity. }
+  destruct n as [|m]; cbn [blanks repeat app].
+  - repeat split.
+    + right. exists (Cs k true). split; [exact He|exact I].
+    + exists (Cs k true). split; [exact He|]. intros; discriminate.
+    + exists O, true. cbn [peek]. rewrite He. reflexivity.
+    + exists O, true. cbn [seq_rest]. rewrite Hns, He. reflexivity.
+  - repeat split.
+    + right. exists blank. split; reflexivity.
+    + exists blank. split; [reflexivity|]. intros cat c E. inversion E; subst. reflexivity.
+    + exists (S m), e. reflexivity.
+    + exists m, e. reflexivity.
+Qed.
+
+(* <optional signs><factor><optional spaces><internal dimen>: a register multiple (1.5\parindent) *)
+Theorem read_dimen_multiple : forall U sr d n k e rest lvl0,
+  lvl0 <= 0 -> declit_ok d -> is_param k = true -> qle_b two_e9 (qabs (as_dimen k)) = false ->
+  exists v, read_dimen U (print_signs sr ++ print_dec d ++ blanks n ++ Cs k e :: rest) lvl0 = Ok v rest lvl0 /\
+            (v == inject_Z (sign_value sr) * dec_value d * as_dimen k)%Q.
+Proof.
+  intros U sr d n k e rest lvl0 Hl Hd Hp Hsmall.
+  destruct (register_tail (lvl0 - 1) n k e rest ltac:(lia) Hp) as (Hend & Hnp & (np & ep & Hpeek) & (ns & es & Hseq)).
+  destruct (print_dec_head d Hd) as (cat & c & pd & Hpd & Hm & Hstop).
+  destruct (read_decimal_print (lvl0 - 1) (mkSR 0 []) d (blanks n ++ Cs k e :: rest) Hd Hend (fun _ => Hnp)) as (q & Hq & Hqv).
+  change (print_signs (mkSR 0 [])) with (@nil tok) in Hq. cbn [app] in Hq.
+  unfold read_dimen.
+  replace (print_signs sr ++ print_dec d ++ blanks n ++ Cs k e :: rest)
+    with (print_signs sr ++ Ch cat c :: pd ++ blanks n ++ Cs k e :: rest) by (rewrite Hpd; reflexivity).
+  rewrite (read_signs_print (lvl0 - 1) sr (Ch cat c) (Ch cat c) _ (expand1_plain _ _ _ Hm) Hstop).
+  rewrite (expand1_plain _ _ _ Hm). cbv zeta.
+  replace (Ch cat c :: pd ++ blanks n ++ Cs k e :: rest) with (print_dec d ++ blanks n ++ Cs k e :: rest) by (rewrite Hpd; reflexivity).
+  rewrite Hq.
+  assert (Hrest : exists n' e', dec_rest (lvl0 - 1) d (blanks n ++ Cs k e :: rest) = blanks n' ++ Cs k e' :: rest).
+  { unfold dec_rest. destruct (d_point d); [exists ns, es; exact Hseq|exists np, ep; exact Hpeek]. }
+  destruct Hrest as (n' & e' & ->).
+  rewrite (read_unit_register U n' k e' rest (lvl0 - 1) ltac:(lia) Hp).
+  eexists. split.
+  - unfold scale_unit. rewrite Hsmall. replace (lvl0 - 1 + 1) with lvl0 by lia. reflexivity.
+  - rewrite Hqv. change (sign_value (mkSR 0 [])) with 1. change (inject_Z 1) with 1%Q.
+    generalize (inject_Z (sign_value sr)) (dec_value d) (as_dimen k). intros a b f. ring.
+Qed.
+
+(* ================================================================ mu units (readMuDimen, readMuGlue) *)
+
+Definition s_mu : list Z := [109; 117].
+
+Lemma mudimen_units_is : mudimen_units = [s_mu] /\ dimen_of_unit s_mu = Some 1%Q.
+Proof. split; reflexivity. Qed.
+
+Theorem read_mudimen_exact : forall sr d n1 tr utoks rest lvl0,
+  declit_ok d -> true_part tr -> spells s_mu utoks ->
+  exists v, read_dimen mudimen_units (print_signs sr ++ print_dec d ++ blanks n1 ++ tr ++ utoks ++ rest) lvl0
+            = Ok v (read_one_optional_space rest) lvl0 /\ (v == inject_Z (sign_value sr) * dec_value d)%Q.
+Proof.
+  intros sr d n1 tr utoks rest lvl0 Hd Htr Hsp.
+  assert (Hne : utoks <> []).
+  { intros ->. destruct Hsp as (_ & H). discriminate. }
+  assert (Hur : unit_reads mudimen_units s_mu utoks rest).
+  { split.
+    - apply (not_true_kw s_mu utoks Hsp). cbn. discriminate.
+    - change mudimen_units with [s_mu]. apply keyword_loop_match, Hsp. }
+  destruct (read_dimen_gen mudimen_units sr d n1 tr utoks s_mu 1%Q rest lvl0 Hd Htr Hsp Hne Hur eq_refl) as (q & Hr & Hq).
+  eexists. split; [exact Hr|]. unfold scale_unit. change (qle_b two_e9 (qabs 1)) with false. cbv iota. rewrite Hq. ring.
+Qed.
